@@ -21,6 +21,7 @@ type c18Case struct {
 	Procs     int               `json:"procs"`
 	Yield     int               `json:"yield"`
 	Serial    bool              `json:"serial,omitempty"` // the serial schedule on the shared environment
+	Shared    map[string]sb.V   `json:"shared,omitempty"` // read-only application data present in every call's context
 	Loader    string            `json:"loader,omitempty"` // memory (default) | fs
 }
 
@@ -46,7 +47,7 @@ func init() {
 		if loader == "" {
 			loader = "memory"
 		}
-		req := &sb.Req{Op: "conc", Env: cs.Env, Loader: loader, Templates: cs.Templates, Calls: cs.Calls, Procs: cs.Procs, Yield: cs.Yield, DeadlineMs: 20000}
+		req := &sb.Req{Op: "conc", Env: cs.Env, Loader: loader, Templates: cs.Templates, Calls: cs.Calls, Procs: cs.Procs, Yield: cs.Yield, DeadlineMs: 20000, Ctx: cs.Shared}
 		if cs.Serial {
 			req.Extra = map[string]string{"mode": "serial"}
 		}
@@ -125,6 +126,15 @@ func init() {
 			cs.Templates["twigfilters.html"] = c18TwigFilters
 			cs.Templates["twigfilters2.txt"] = c18TwigFilters2
 			entries = append(entries, "twigfilters.html", "twigfilters2.txt", "twigfilters.html")
+			// application data shared by all calls (each call has its own context
+			// map, the settings map and the list inside are the same objects)
+			cs.Shared = map[string]sb.V{
+				"defaults":    {K: "hash", KS: []string{"lang"}, E: []sb.V{{K: "str", S: "en"}}},
+				"shared_list": {K: "arr", E: []sb.V{{K: "num", N: 1}, {K: "str", S: "two"}}},
+				"shared_per":  {K: "ptr", E: []sb.V{{K: "person", S: "Pat", N: 40}}},
+			}
+			cs.Templates["sharedcfg.html"] = "{% set o = defaults|merge({('k' ~ x): p}) %}{{ o|keys|sort|join(',') }}|{% for k, v in defaults %}{{ k }}={{ v }};{% endfor %}|{{ shared_list|merge([x])|join('+') }}|{{ shared_list|reverse|join }}|{{ shared_list|sort|join }}|{{ shared_per.Name }}{{ shared_per.Greet('hi ') }}|{{ defaults|length }}{{ shared_list|length }}"
+			entries = append(entries, "sharedcfg.html", "sharedcfg.html")
 			cs.Templates["payload.js"] = "var x = '{{ p }}';"
 			cs.Templates["payload.html"] = "<b>{{ p }}</b>{% block a %}{{ p }}{% endblock %}"
 			cs.Templates["payload.txt"] = "{{ p }}"
